@@ -307,21 +307,32 @@ fn run_case(c: &Case, rep: &mut CaseReport) -> Verdict {
         if canon(&j.rows) != canon(&u.rows) {
             return Verdict::fail("cells-differ:json-vs-text", json!({"cmd": q, "json": j.rows, "unix": u.rows, "log": w.db.log}));
         }
-        // align arrow rows with json rows: by event_id when present, else by position after canonical sort of json text
+        // align arrow rows with json rows: by event_id when present. A table without event ids (aggregates) has no specified
+        // row order and the three answers come from three executions, so its rows are matched as multisets: every JSON row
+        // needs its own Arrow row with equal cells (a sort on the cell text would not do: an Arrow timestamp cell and the
+        // JSON number print differently and sort differently - correction 22 in DESIGN.md)
         let key_col = j.columns.iter().position(|c| c == "event_id");
-        let mut jr = j.rows.clone();
-        let mut ar = a.rows.clone();
         if let Some(kc) = key_col {
+            let mut jr = j.rows.clone();
+            let mut ar = a.rows.clone();
             jr.sort_by_key(|r| r[kc].as_u64().unwrap_or(0));
             ar.sort_by_key(|r| r[kc].as_u64().or(r[kc].as_i64().map(|v| v as u64)).unwrap_or(0));
+            for (rj, ra) in jr.iter().zip(ar.iter()) {
+                for (ci, (cj, ca)) in rj.iter().zip(ra.iter()).enumerate() {
+                    if !cells_equal(cj, ca) {
+                        return Verdict::fail("cells-differ:json-vs-arrow", json!({"cmd": q, "column": j.columns[ci], "json_cell": cj, "arrow_cell": ca, "json_row": rj, "arrow_row": ra, "log": w.db.log}));
+                    }
+                }
+            }
         } else {
-            jr.sort_by_key(|r| serde_json::to_string(&r[0]).unwrap_or_default());
-            ar.sort_by_key(|r| serde_json::to_string(&r[0]).unwrap_or_default());
-        }
-        for (rj, ra) in jr.iter().zip(ar.iter()) {
-            for (ci, (cj, ca)) in rj.iter().zip(ra.iter()).enumerate() {
-                if !cells_equal(cj, ca) {
-                    return Verdict::fail("cells-differ:json-vs-arrow", json!({"cmd": q, "column": j.columns[ci], "json_cell": cj, "arrow_cell": ca, "json_row": rj, "arrow_row": ra, "log": w.db.log}));
+            let mut used = vec![false; a.rows.len()];
+            for rj in &j.rows {
+                let hit = a.rows.iter().enumerate().position(|(i, ra)| !used[i] && ra.len() == rj.len() && rj.iter().zip(ra.iter()).all(|(cj, ca)| cells_equal(cj, ca)));
+                match hit {
+                    Some(i) => used[i] = true,
+                    None => {
+                        return Verdict::fail("cells-differ:json-vs-arrow", json!({"cmd": q, "json_row_without_equal_arrow_row": rj, "json_rows": j.rows, "arrow_rows": a.rows, "log": w.db.log}));
+                    }
                 }
             }
         }
